@@ -196,6 +196,37 @@ def decodeRanges (hf : HashFns H) [BEq H] (fl : Flavour) (encoded : List UInt8) 
   let d := Dec.new sink.ob.root tree ranges encoded
   decodeRangesAux hf fl tree (PrePartial.fuelFor d.iter.tree + 1) d sink [] []
 
+/-- `decode_ranges` with an injected failure of the `fw`-th target write or the `fs`-th
+outboard save of this call (0-based); a failing call has no effect (assumption A3) -/
+def decodeRangesFAux (hf : HashFns H) [BEq H] (fl : Flavour) (tree : Tree) (fw fs : Option Nat) :
+    Nat → Dec H → Sink H → Nat → Nat → Sink H × DecEnd
+  | 0, _, sink, _, _ => (sink, .panic)
+  | fuel + 1, d, sink, nw, ns =>
+    match d.next hf fl with
+    | .done _ => (sink, .done)
+    | .err e _ => (sink, .err e)
+    | .panic => (sink, .panic)
+    | .item (.parent node l r) d' =>
+      if tree.isRelevant node then
+        if fs == some ns then (sink, .err (.io ⟨.other, true⟩))
+        else
+          match sink.ob.save hf node (l, r) with
+          | .ok ob => decodeRangesFAux hf fl tree fw fs fuel d' { sink with ob } nw (ns + 1)
+          | .err e => (sink, .err (.io e))
+          | .panic => (sink, .panic)
+      else decodeRangesFAux hf fl tree fw fs fuel d' sink nw ns
+    | .item (.leaf off data) d' =>
+      -- `write_all_at` with an empty buffer makes no call on the target (sync only)
+      if fl == .sync && data.isEmpty then decodeRangesFAux hf fl tree fw fs fuel d' sink nw ns
+      else if fw == some nw then (sink, .err (.io ⟨.other, true⟩))
+      else decodeRangesFAux hf fl tree fw fs fuel d' { sink with target := writeAt sink.target off data } (nw + 1) ns
+
+def decodeRangesF (hf : HashFns H) [BEq H] (fl : Flavour) (encoded : List UInt8) (ranges : Ranges)
+    (sink : Sink H) (fw fs : Option Nat) : Sink H × DecEnd :=
+  let tree := sink.ob.tree
+  let d := Dec.new sink.ob.root tree ranges encoded
+  decodeRangesFAux hf fl tree fw fs (PrePartial.fuelFor d.iter.tree + 1) d sink 0 0
+
 /-! ## encoders -/
 
 /-- terminal of an encode -/
